@@ -120,6 +120,17 @@ func (v *StructSchema) process(ctx *p.SchemaCtx) {
 
 		subValue, fieldKey := dataProv.GetByField(fieldMeta, originalKey)
 		subCtx.Data = subValue
+		if processor.getType() == zconst.TypeStruct {
+			// a nested record is read through its parent's provider, so that it keeps the source specific tag
+			// (json, form...) and flat sources (form, query, env) resolve its fields against the same source.
+			// Optional records (pointers) are only entered when the parent actually holds a value for them.
+			_, direct := processor.(*StructSchema)
+			if direct || !p.IsParseZeroValue(subValue, subCtx) {
+				if nested := dataProv.GetNestedProvider(fieldKey); nested != nil {
+					subCtx.Data = nested
+				}
+			}
+		}
 		subCtx.ValPtr = destPtr
 		subCtx.Path.Push(&fieldKey)
 		subCtx.DType = processor.getType()
